@@ -338,7 +338,23 @@ def _bfs_worker(item):
 _ALPHA_CACHE = {}
 
 
+def _small_labels(orders):
+    """labels over channel a in {F1,F2,SAME} with b either absent or restated (F1), for the given listing orders, with and
+    without a new object list, plus the metadata-less segment: small enough for a depth-4 tree"""
+    out = [{'meta': False, 'chunks': 1}]
+    for newlist in (True, False):
+        for e in ('F1', 'F2', 'SAME'):
+            for order in orders:
+                ents = [[ch, e if ch == 'a' else 'F1'] for ch in order]
+                out.append({'meta': True, 'newlist': newlist, 'entries': ents, 'chunks': 1, 'prop': False})
+    return out
+
+
 def _alphabet(name):
+    if name == 'A2q' and name not in _ALPHA_CACHE:
+        _ALPHA_CACHE[name] = _small_labels(['a', 'ab'])
+    if name == 'A2r' and name not in _ALPHA_CACHE:
+        _ALPHA_CACHE[name] = _small_labels(['a', 'b', 'ab', 'ba'])
     if name not in _ALPHA_CACHE:
         chans, encs, chunks, props = {
             'A2s': ('ab', ['F1', 'F2', 'SAME', 'NODATA'], [1], False),
@@ -360,7 +376,8 @@ def run(ctx):
     cov = {'full_tree': [], 'bfs': {}}
     results = []
     # (i) full trees
-    trees = [('A2', 2), ('A2s', 3), ('A2z', 2)] if ctx.tier == 'quick' else [('A2', 2), ('A2x', 3), ('A3r', 2), ('A2z', 2)]
+    # (depth 4 over 13 / 25 labels: histories in which identical segment bytes recur after the meaning of 'same as before' changed)
+    trees = [('A2', 2), ('A2s', 3), ('A2z', 2), ('A2q', 4)] if ctx.tier == 'quick' else [('A2', 2), ('A2x', 3), ('A3r', 2), ('A2z', 2), ('A2r', 4)]
     for aname, depth in trees:
         alpha = _alphabet(aname)
         if depth >= 3:
